@@ -112,7 +112,10 @@ def h_fit_mle(h):
     back = fam.ref(d.parameters)
     res = log[0]["result"]
     h.check(len(back) == len(res), "result-arity")
+    deps = c12.slot_deps(fam)
     for i in range(len(res)):
+        if deps[i] and deps[i] <= set(S):
+            continue        # a fixed slot: judged by fixed-after-fit above (scipy may echo it differently, e.g. wrapped)
         h.close(back[i], res[i], "free-parameters-are-the-estimates", rtol=1e-9)
 
 
